@@ -18,6 +18,8 @@ def main(argv=None) -> int:
     ap.add_argument("--seed", type=int, default=int(os.environ.get("VERIF_SEED", "0")))
     ap.add_argument("--setup", action="store_true")
     ap.add_argument("--replay")
+    ap.add_argument("--refresh-genref", action="store_true",
+                    help="store the tables regenerated from the current repository as coq/GenRef/*.v.ref")
     ap.add_argument("--manifest", action="store_true", help="regenerate MANIFEST.json from property modules")
     a = ap.parse_args(argv)
     core.BUILD.mkdir(exist_ok=True)
@@ -45,6 +47,14 @@ def main(argv=None) -> int:
             return 1
         if p.returncode != 0:
             print("setup: note: some files outside the registered properties' closures did not build (see above)")
+        return 0
+    if a.refresh_genref:
+        gen = core.translate_all()
+        bad = {k: v for k, v in gen.items() if str(v).startswith("TRANSLATOR FAILED")}
+        if bad:
+            print("translators failed:", bad)
+            return 1
+        print("GenRef:", ", ".join(core.refresh_genref()))
         return 0
     if a.manifest:
         from . import manifest
